@@ -1,1 +1,3 @@
+pub mod curve;
+pub mod fieldmodel;
 pub mod zmod;
